@@ -181,6 +181,42 @@ def run(facts, rep, ctx):
             rep.ok(R4, {"missing": k, "error": v})
         else:
             rep.violation(R4, b.name, "error:" + k, "a missing %s is reported as %s (specified %s)" % (k, got.get(k), v), where)
+    # ---- R16.5 empty bodies ----------------------------------------------------------------------------
+    R5 = rep.rule("R16.5", "a zero-length body is accepted wherever it is placed (including at the very end of the data)", floor=1)
+    rb = facts.body("mila::bin_streams::BinArchiveReader::<'a>::read_bytes")
+    if rb is None:
+        rep.inconc(R5, "BinArchiveReader::read_bytes missing")
+    else:
+        from binser import for_loops as _fl, enclosing_loops as _el
+        lps = _fl(rb)
+        outside = []
+        for bb2, t2 in rb.calls():
+            nm2 = callee_names(t2)[1] or ""
+            if nm2.startswith("mila::") and rb.local_ty(t2["dest"]["l"]).startswith("std::result::Result<") and not _el(lps, bb2):
+                outside.append((bb2, t2, nm2))
+        if not outside:
+            rep.ok(R5, {"fn": rb.name, "fallible_reads": "only inside the per-byte loop: count 0 reads nothing"})
+        else:
+            # a fallible positional read that runs even for count == 0: it must accept the empty range at the end
+            from summ import Evaluator, Ref, Unknown, Panic
+            from c04 import final_outcomes
+            E = Evaluator(facts)
+            bad = None
+            for bb2, t2, nm2 in outside:
+                cb = facts.body(nm2)
+                if cb is None:
+                    continue
+                try:
+                    outs = final_outcomes(E, facts, cb, [Ref({"data": {"len": 8}}), 8, 0])
+                except (Unknown, Panic) as u:
+                    rep.inconc(R5, "%s not evaluable: %s" % (nm2, u))
+                    continue
+                if outs and all(o["err"] is True and o["definite"] for o in outs):
+                    bad = "%s(position == size, 0) is rejected" % nm2.rsplit("::", 1)[-1]
+            if bad:
+                rep.violation(R5, rb.name, "empty-at-end", "BinArchiveReader::read_bytes performs a positional read even for a zero-length request and %s: an empty file recorded at the end of the data region fails to extract" % bad, "%s:%s" % (rb.file, rb.line))
+            else:
+                rep.ok(R5, {"fn": rb.name, "zero_length_at_end": "accepted"})
     uw = [(callee_names(t)[1] or "") for bb, t in b.calls() if (callee_names(t)[1] or "").rsplit("::", 1)[-1] in ("unwrap", "expect")]
     if not uw:
         rep.ok(R4, {"unwraps": 0})
